@@ -1,53 +1,24 @@
 (* C15 - theorems about the Strop model.
-   Part 1: bounded completeness (finite sweeps of Sweep*.v lifted to all matrices of a shape).
+   Part 1: bounded completeness (now a corollary of StropComplete.v; sweeps in SweepAll.v).
    Part 2: soundness for matrices of any size.
    Part 3: cell count of an instance's rectangles. *)
 From Coq Require Import List Bool Arith Lia.
 From FrameModel Require Import Strop.Strop Strop.Spec Strop.StropBase.
-From FrameModel Require Import Strop.Sweep12 Strop.Sweep13 Strop.Sweep15
-     Strop.Sweep16a Strop.Sweep16b Strop.Sweep16c.
+From FrameModel Require Import Strop.StropSound Strop.StropComplete.
 Import ListNotations.
 
 (* ====================== Part 1: bounded completeness ====================== *)
-Lemma sweepp_in L p : forallb sweepp L = true -> In p L -> sweepp p = true.
-Proof. intros H Hin. rewrite forallb_forall in H. exact (H p Hin). Qed.
-
-Theorem sweep_all_16 R C : 1 <= R -> 1 <= C -> R * C <= 16 -> sweep R C = true.
-Proof.
-  intros HR HC Hn. change (sweepp (R, C) = true).
-  destruct (le_lt_dec (R * C) 12) as [H12|H12].
-  { apply (sweepp_in _ _ Sweep12_ok). apply in_shapes_le; assumption. }
-  assert (Hc : R * C = 13 \/ R * C = 14 \/ R * C = 15 \/ R * C = 16) by lia.
-  destruct Hc as [H|[H|[H|H]]].
-  - apply (sweepp_in _ _ Sweep13_ok). apply in_or_app. left. apply in_shapes_eq; assumption.
-  - apply (sweepp_in _ _ Sweep13_ok). apply in_or_app. right. apply in_shapes_eq; assumption.
-  - apply (sweepp_in _ _ Sweep15_ok). apply in_shapes_eq; assumption.
-  - pose proof (in_shapes_eq R C 16 HR HC H) as Hin. vm_compute in Hin.
-    destruct Hin as [E|[E|[E|[E|[E|[]]]]]]; rewrite <- E.
-    + apply (sweepp_in _ _ Sweep16a_ok). left; reflexivity.
-    + apply (sweepp_in _ _ Sweep16b_ok). left; reflexivity.
-    + apply (sweepp_in _ _ Sweep16c_ok). left; reflexivity.
-    + apply (sweepp_in _ _ Sweep16b_ok). right; left; reflexivity.
-    + apply (sweepp_in _ _ Sweep16a_ok). right; left; reflexivity.
-Qed.
-
-(* For every 0/1 matrix with R >= 1 rows, C >= 1 columns and at most 16 cells:
-   is_strop holds exactly when the brute-force test finds a decomposition,
-   exactly when a decomposition exists at all (any trunk, any list of branches),
-   and every instance that is offered is a decomposition. *)
+(* Since completeness is proved for every size (StropComplete.v) the bounded theorem is a
+   corollary.  The exhaustive vm_compute sweeps over all matrices with at most 16 cells
+   (Sweep*.v) are still compiled and lifted to the same statement in SweepAll.v
+   ([strop_complete_bounded_by_sweep]) as an independent cross-check by computation; they are
+   no longer a dependency of the property theorems. *)
 Theorem strop_complete_bounded : forall R C M,
   1 <= R -> 1 <= C -> R * C <= 16 -> shape M R C ->
   (is_strop M = true <-> has_decomp M = true) /\
   (is_strop M = true <-> exists T Bs, decomp M T Bs) /\
   (forall inst, In inst (instances M) -> decomp M (trunk inst) (branches inst)).
-Proof.
-  intros R C M HR HC Hn HM.
-  pose proof (sweep_lift R C (sweep_all_16 R C HR HC Hn) M HM) as Hck.
-  destruct (check_meaning M Hck) as [H1 H2].
-  split; [|split; assumption].
-  unfold check in Hck. apply andb_true_iff in Hck. destruct Hck as [E _].
-  apply eqb_prop in E. rewrite E. tauto.
-Qed.
+Proof. intros R C M HR HC _ HM. exact (strop_complete_shape R C M HR HC HM). Qed.
 
 (* the hypotheses are satisfiable by a matrix with and one without a decomposition *)
 Example strop_complete_bounded_ex :
